@@ -223,4 +223,318 @@ theorem letLoopS_pres : ∀ f todo body, Preserves Grow (letLoopS f todo body) :
     unfold letLoopS
     pres
 
+theorem whnfS_pres : ∀ f t, Preserves Grow (whnfS f t) := by
+  intro f
+  induction f with
+  | zero => intros; rw [whnfS]; exact Preserves.outOfFuel
+  | succ f ih =>
+    intro t
+    have hu := ushiftS_pres f
+    have ho := openS_pres f
+    have hl := letLoopS_pres f
+    unfold whnfS
+    pres
+
+theorem derefS_pres : ∀ f t, Preserves Grow (derefS f t) := by
+  intro f
+  induction f with
+  | zero => intros; rw [derefS]; exact Preserves.outOfFuel
+  | succ f ih =>
+    intro t
+    have hu := ushiftS_pres f
+    unfold derefS
+    pres
+
+theorem synEqS_grow : ∀ f,
+    (∀ a b, Preserves Grow (synEqS f a b)) ∧
+    (∀ a b, Preserves Grow (synEqDefsS f a b)) := by
+  intro f
+  induction f with
+  | zero =>
+    constructor
+    · intros; rw [synEqS]; exact Preserves.outOfFuel
+    · intros; rw [synEqDefsS]; exact Preserves.outOfFuel
+  | succ f ih =>
+    obtain ⟨ih1, ih2⟩ := ih
+    have hd := derefS_pres f
+    constructor
+    · intro a b
+      unfold synEqS
+      pres
+    · intro a b
+      unfold synEqDefsS
+      pres
+
+theorem synEqS_pres (f a b) : Preserves Grow (synEqS f a b) := (synEqS_grow f).1 a b
+
+theorem occursS_grow : ∀ f,
+    (∀ id t, Preserves Grow (occursS f id t)) ∧
+    (∀ id ds, Preserves Grow (occursDefsS f id ds)) := by
+  intro f
+  induction f with
+  | zero =>
+    constructor
+    · intros; rw [occursS]; exact Preserves.outOfFuel
+    · intros; rw [occursDefsS]; exact Preserves.outOfFuel
+  | succ f ih =>
+    obtain ⟨ih1, ih2⟩ := ih
+    constructor
+    · intro id t
+      unfold occursS
+      pres
+    · intro id ds
+      unfold occursDefsS
+      pres
+
+theorem occursS_pres (f id t) : Preserves Grow (occursS f id t) := (occursS_grow f).1 id t
+
+theorem letTypeS_pres (f ds) : ∀ k i acc, Preserves Grow (letTypeS f ds k i acc) := by
+  have hs := sshiftDefsS_pres f
+  have ho := openS_pres f
+  intro k
+  induction k with
+  | zero => intros; unfold letTypeS; pres
+  | succ k ih => intros; unfold letTypeS; pres
+
+
+/-! ## `whnfS` only returns a hole whose cell is empty -/
+
+structure Post {α} (Q : α → St → Prop) (m : M α) : Prop where
+  out : ∀ s a s', m s = .ok a s' → Q a s'
+
+theorem Post.pure {α} {Q : α → St → Prop} {a : α} (h : ∀ s, Q a s) : Post Q (pure a : M α) := by
+  refine ⟨fun s b s' h' => ?_⟩
+  obtain ⟨rfl, rfl⟩ := pure_ok h'
+  exact h _
+
+theorem Post.bind {α β} {Q : β → St → Prop} {m : M α} {f : α → M β}
+    (hf : ∀ a, Post Q (f a)) : Post Q (m >>= f) := by
+  refine ⟨fun s b s' h => ?_⟩
+  obtain ⟨a, s1, _, h2⟩ := bind_ok h
+  exact (hf a).out _ _ _ h2
+
+theorem Post.outOfFuel {α} {Q : α → St → Prop} : Post Q (outOfFuel : M α) := by
+  refine ⟨fun s b s' h => ?_⟩; cases h
+
+theorem Post.panicAt {α} {Q : α → St → Prop} (site : String) : Post Q (panicAt site : M α) := by
+  refine ⟨fun s b s' h => ?_⟩; cases h
+
+macro "post_step" : tactic => `(tactic| first
+  | with_reducible exact Post.outOfFuel
+  | with_reducible exact Post.panicAt _
+  | with_reducible assumption
+  | apply_hyp
+  | with_reducible (apply Post.bind)
+  | intro _
+  | split)
+
+theorem cellGet_ok {id : Nat} {s s1 : St} {o : Option Tm} (h : cellGet id s = .ok o s1) :
+    s1 = s ∧ (o = none → Empty s.store id) := by
+  unfold cellGet at h
+  cases h
+  refine ⟨rfl, fun h t ht => ?_⟩
+  rw [ht] at h
+  cases h
+
+/-- the result of `whnfS`, if a hole, is an unresolved one -/
+def HoleEmpty (r : Tm) (s : St) : Prop := ∀ id sh, r = .hole id sh → Empty s.store id
+
+theorem delta_not_hole {op x y r} (h : delta op x y = some r) : ∀ s, HoleEmpty r s := by
+  intro s id sh e
+  subst e
+  unfold delta at h
+  split at h <;> (try split at h) <;> cases h
+
+theorem whnfS_hole : ∀ f t, Post HoleEmpty (whnfS f t) := by
+  intro f
+  induction f with
+  | zero => intros; rw [whnfS]; exact Post.outOfFuel
+  | succ f ih =>
+    intro t
+    unfold whnfS
+    split
+    · -- hole
+      refine ⟨fun s r s' h => ?_⟩
+      obtain ⟨o, s1, h1, h2⟩ := bind_ok h
+      obtain ⟨rfl, he⟩ := cellGet_ok h1
+      cases o with
+      | some sub =>
+        obtain ⟨_, _, _, h3⟩ := bind_ok h2
+        exact (ih _).out _ _ _ h3
+      | none =>
+        obtain ⟨rfl, rfl⟩ := pure_ok h2
+        intro id sh e
+        cases e
+        exact he rfl
+    all_goals repeat' post_step
+    all_goals first
+      | exact Post.pure (Q := HoleEmpty) (delta_not_hole (by assumption))
+      | (refine Post.pure (Q := HoleEmpty) (fun s id sh e => ?_); first | (exfalso; solve_by_elim) | cases e)
+
+/-! ## `solveS`: the only write to an existing cell -/
+
+theorem Preserves.mono {α} {P Q : St → St → Prop} {m : M α} (h : ∀ s s', P s s' → Q s s')
+    (hm : Preserves P m) : Preserves Q m := ⟨fun s a s' e => h _ _ (hm.out s a s' e)⟩
+
+theorem Preserves.le {α} {m : M α} (hm : Preserves Grow m) : Preserves Le m :=
+  hm.mono fun _ _ => Grow.le
+
+theorem StoreLe_set {l : List (Option Tm)} {id : Nat} (t : Tm) (he : Empty l id) :
+    StoreLe l (l.set id (some t)) := by
+  refine ⟨by simp, fun j u h => ?_⟩
+  rw [List.getElem?_set]
+  split
+  · next e => subst e; exact absurd h (he u)
+  · exact h
+
+theorem cellSet_le {id : Nat} {t : Tm} {s s' : St} {a : Unit} (he : Empty s.store id)
+    (h : cellSet id t s = .ok a s') : Le s s' := by
+  unfold cellSet modifySt at h
+  cases h
+  exact ⟨StoreLe_set t he, Nat.le_refl _⟩
+
+theorem solveS_spec {f id sh : Nat} {other : Tm} {s s' : St} {r : Option Bool}
+    (h : solveS f id sh other s = .ok r s') :
+    (r = none → Grow s s') ∧ (Empty s.store id → Le s s') := by
+  unfold solveS at h
+  obtain ⟨o, s1, h1, h2⟩ := bind_ok h
+  have g1 := (sshiftS_pres _ _ _ _).out _ _ _ h1
+  split at h2
+  · obtain ⟨rfl, rfl⟩ := pure_ok h2
+    exact ⟨fun _ => g1, fun _ => g1.le⟩
+  · obtain ⟨b, s2, h3, h4⟩ := bind_ok h2
+    have g2 := RT.trans g1 ((occursS_pres _ _ _).out _ _ _ h3)
+    split at h4
+    · obtain ⟨rfl, rfl⟩ := pure_ok h4
+      exact ⟨fun e => (by cases e), fun _ => g2.le⟩
+    · obtain ⟨o2, s3, h5, h6⟩ := bind_ok h4
+      have g3 := RT.trans g2 ((sshiftS_pres _ _ _ _).out _ _ _ h5)
+      split at h6
+      · obtain ⟨u, s4, h7, h8⟩ := bind_ok h6
+        obtain ⟨rfl, rfl⟩ := pure_ok h8
+        exact ⟨fun e => (by cases e), fun he => RT.trans g3.le (cellSet_le (g3.empty he) h7)⟩
+      · obtain ⟨rfl, rfl⟩ := pure_ok h6
+        exact ⟨fun e => (by cases e), fun _ => g3.le⟩
+
+/-! ## State-only primitives -/
+
+theorem modifySt_le {f : St → St} (hs : ∀ s, (f s).store = s.store) (hn : ∀ s, s.nerrs ≤ (f s).nerrs) :
+    Preserves Le (modifySt f) := by
+  refine ⟨fun s a s' h => ?_⟩
+  unfold modifySt at h
+  cases h
+  exact ⟨by rw [hs]; exact (RT.refl (P := Le) s).1, hn s⟩
+
+theorem pushD_le (d) : Preserves Le (pushD d) := modifySt_le (fun _ => rfl) (fun _ => Nat.le_refl _)
+theorem popD_le : Preserves Le popD := modifySt_le (fun _ => rfl) (fun _ => Nat.le_refl _)
+theorem pushCtx_le (ty d) : Preserves Le (pushCtx ty d) :=
+  modifySt_le (fun _ => rfl) (fun _ => Nat.le_refl _)
+theorem popCtx_le : Preserves Le popCtx := modifySt_le (fun _ => rfl) (fun _ => Nat.le_refl _)
+theorem reportError_le : Preserves Le reportError :=
+  modifySt_le (fun _ => rfl) (fun _ => Nat.le_succ _)
+theorem cellFresh_le : Preserves Le cellFresh := Preserves.cellFresh_grow.le
+
+/-! ## `unifyS` -/
+
+theorem unifyS_le : ∀ f a b, Preserves Le (unifyS f a b) := by
+  intro f
+  induction f with
+  | zero => intros; rw [unifyS]; exact Preserves.outOfFuel
+  | succ f ih =>
+    intro a b
+    unfold unifyS
+    refine ⟨fun s r s' h => ?_⟩
+    obtain ⟨c, s0, h0, h1⟩ := bind_ok h
+    have g0 := (synEqS_pres _ _ _).out _ _ _ h0
+    split at h1
+    · obtain ⟨_, rfl⟩ := pure_ok h1
+      exact g0.le
+    · obtain ⟨w1, s1, hw1, h2⟩ := bind_ok h1
+      obtain ⟨w2, s2, hw2, h3⟩ := bind_ok h2
+      have g1 := (whnfS_pres _ _).out _ _ _ hw1
+      have g2 := (whnfS_pres _ _).out _ _ _ hw2
+      have E1 : HoleEmpty w1 s2 := fun i sh e => g2.empty ((whnfS_hole _ _).out _ _ _ hw1 i sh e)
+      have E2 : HoleEmpty w2 s2 := (whnfS_hole _ _).out _ _ _ hw2
+      refine RT.trans g0.le (RT.trans g1.le (RT.trans g2.le ?_))
+      clear h h0 h1 h2 hw1 hw2 g0 g1 g2
+      extract_lets structural rightHole at h3
+      have hstruct : Preserves Le structural := by
+        have hpush := pushD_le
+        have hpop := popD_le
+        unfold structural
+        pres
+      have hright : ∀ st r s', HoleEmpty w2 st → rightHole st = .ok r s' → Le st s' := by
+        intro st r s' he h
+        unfold rightHole at h
+        split at h
+        · obtain ⟨o, st1, hs, h'⟩ := bind_ok h
+          have sp := solveS_spec hs
+          split at h'
+          · obtain ⟨_, rfl⟩ := pure_ok h'
+            exact sp.2 (he _ _ rfl)
+          · exact RT.trans (sp.1 rfl).le (hstruct.out _ _ _ h')
+        · exact hstruct.out _ _ _ h
+      have hleft : ∀ i sh, w1 = .hole i sh →
+          (do match ← solveS f i sh w2 with
+              | some b => pure b
+              | none => rightHole : M Bool) s2 = .ok r s' → Le s2 s' := by
+        intro i sh e h
+        obtain ⟨o, st1, hs, h'⟩ := bind_ok h
+        have sp := solveS_spec hs
+        split at h'
+        · obtain ⟨_, rfl⟩ := pure_ok h'
+          exact sp.2 (E1 _ _ e)
+        · have g := sp.1 rfl
+          exact RT.trans g.le (hright _ _ _ (fun j sh e => g.empty (E2 j sh e)) h')
+      split at h3
+      · split at h3
+        · obtain ⟨_, rfl⟩ := pure_ok h3
+          exact RT.refl _
+        · exact hleft _ _ rfl h3
+      · exact hleft _ _ rfl h3
+      · exact hright _ _ _ E2 h3
+
+/-! ## `inferS` -/
+
+theorem pushDefsS_le (ds k) : Preserves Le (pushDefsS ds k) := by
+  have hp := pushCtx_le
+  fun_induction pushDefsS ds k <;> pres
+
+theorem popN_le : ∀ k, Preserves Le (popN k) := by
+  have hp := popCtx_le
+  intro k
+  induction k with
+  | zero => unfold popN; pres
+  | succ k ih => unfold popN; pres
+
+theorem inferS_le_aux : ∀ f,
+    (∀ t, Preserves Le (inferS f t)) ∧ (∀ ds, Preserves Le (inferDefsS f ds)) := by
+  intro f
+  induction f with
+  | zero =>
+    constructor
+    · intros; rw [inferS]; exact Preserves.outOfFuel
+    · intros; rw [inferDefsS]; exact Preserves.outOfFuel
+  | succ f ih =>
+    obtain ⟨ih1, ih2⟩ := ih
+    have hun := unifyS_le f
+    have hus := fun c a t => (ushiftS_pres f c a t).le
+    have hop := fun t i u s => (openS_pres f t i u s).le
+    have hlt := fun ds k i acc => (letTypeS_pres f ds k i acc).le
+    have hfr := cellFresh_le
+    have hpc := pushCtx_le
+    have hpo := popCtx_le
+    have hre := reportError_le
+    have hpd := pushDefsS_le
+    have hpn := popN_le
+    constructor
+    · intro t
+      unfold inferS
+      pres
+    · intro ds
+      unfold inferDefsS
+      pres
+
+theorem inferS_le (f t) : Preserves Le (inferS f t) := (inferS_le_aux f).1 t
+
 end StoreMono
